@@ -701,11 +701,16 @@ type LongItemCase struct {
 	Zeros int    `json:"zeros"`
 	Tail  string `json:"tail"`
 	Str   bool   `json:"str,omitempty"`
+	Fill  string `json:"fill,omitempty"` // the repeated digit, "0" if empty
 }
 
 var checkLongItem = register("c16.longitem", func(c LongItemCase) *Violation {
-	text := c.Head + strings.Repeat("0", c.Zeros) + c.Tail
-	what := fmt.Sprintf("%s + %d x \"0\" + %s", c.Head, c.Zeros, c.Tail)
+	fill := c.Fill
+	if fill == "" {
+		fill = "0"
+	}
+	text := c.Head + strings.Repeat(fill, c.Zeros) + c.Tail
+	what := fmt.Sprintf("%s + %d x %q + %s", c.Head, c.Zeros, fill, c.Tail)
 	var item any = json.Number(text)
 	if c.Str {
 		item = text
@@ -722,12 +727,15 @@ var checkLongItem = register("c16.longitem", func(c LongItemCase) *Violation {
 		return nil
 	}
 	f, ok := d.Items[0].(float64)
-	if !ok || math.Abs(f) > 1e9 {
+	if !ok || math.Abs(f) > 9e18 {
 		return nil
 	}
 	for _, m := range []string{".integer()", ".bigint()", ".number()", ".decimal()", ".decimal(12,1)"} {
 		if c.Str && m == ".integer()" || c.Str && m == ".bigint()" {
 			continue // a string must be an integer literal for these two
+		}
+		if math.Abs(f) > 1e9 && (m == ".integer()" || m == ".decimal(12,1)") {
+			continue // beyond their ranges
 		}
 		o := run(m)
 		if o.Panic != "" {
@@ -739,6 +747,12 @@ var checkLongItem = register("c16.longitem", func(c LongItemCase) *Violation {
 		r, isNum := asNum(o.Items[0])
 		if !isNum || math.Abs(r.float()-f) > 1 {
 			return violf(".double() reads the item %s as %v, but %s returned %s", what, f, m, Render(o.Items[0], false))
+		}
+		// within math/big's limits the conversions of a json.Number to an integer are exact (D38), however long the text
+		if exact, ok := new(big.Rat).SetString(text); ok && !c.Str && (m == ".integer()" || m == ".bigint()") {
+			if want := roundHalfAway(exact); r.rat().Cmp(want) != 0 {
+				return violf("%s on the json.Number %s: the number rounds to %s, got %s", m, what, want.RatString(), Render(o.Items[0], false))
+			}
 		}
 	}
 	return nil
@@ -758,14 +772,22 @@ func TestC16(t *testing.T) {
 		var cs []LongItemCase
 		for _, z := range []int{1000, 1000001} {
 			for _, str := range []bool{false, true} {
-				cs = append(cs, LongItemCase{"1.5", z, "", str}, LongItemCase{"-2.5", z, "1", str}, LongItemCase{"7.", z, "e0", str}, LongItemCase{"0.", z, fmt.Sprintf("25e%d", z+2), str})
+				cs = append(cs, LongItemCase{Head: "1.5", Zeros: z, Str: str}, LongItemCase{Head: "-2.5", Zeros: z, Tail: "1", Str: str}, LongItemCase{Head: "7.", Zeros: z, Tail: "e0", Str: str})
+				if z < 99000 { // (strconv.ParseFloat reads exponents of more than five digits as saturated: the family of open finding D58)
+					cs = append(cs, LongItemCase{Head: "0.", Zeros: z, Tail: fmt.Sprintf("25e%d", z+2), Str: str})
+				}
 			}
+		}
+		// digits a double cannot see, thousands of characters into the text
+		for _, z := range []int{500, 5000, 70000} {
+			cs = append(cs, LongItemCase{Head: "0.4", Zeros: z, Fill: "9"}, LongItemCase{Head: "9007199254740993.", Zeros: z}, LongItemCase{Head: "2147483647.4", Zeros: z, Fill: "9"},
+				LongItemCase{Head: "-0.5", Zeros: z, Tail: "1"}, LongItemCase{Head: "1.5", Zeros: z, Tail: "e0"}, LongItemCase{Head: "-2147483648.4", Zeros: z, Fill: "9", Tail: "e0"}, LongItemCase{Head: "0.5", Zeros: z}, LongItemCase{Head: "2.4", Zeros: z, Fill: "9", Tail: "8"})
 		}
 		for i, c := range cs {
 			if !mine(i) {
 				continue
 			}
-			ev.Eval(fmt.Sprintf("longitem:%s:%d:%s:%v", c.Head, c.Zeros, c.Tail, c.Str), true)
+			ev.Eval(fmt.Sprintf("longitem:%s:%d:%s:%s:%v", c.Head, c.Zeros, c.Fill, c.Tail, c.Str), true)
 			ev.Sample("long_items", c)
 			if !b.Check("c16.longitem", c, checkLongItem(c)) {
 				return
